@@ -51,6 +51,7 @@ type Solver struct {
 	seed     int
 	seq      int
 	skip     func(o *Obligation) bool
+	noCap    bool // retry pass: use the full time limit also for sweep / cover obligations
 }
 
 func NewSolver(cacheDir string, timeout, par int) *Solver {
@@ -73,7 +74,7 @@ func firstLine(out string) string {
 }
 
 func (s *Solver) Solve(query string, want string) Verdict {
-	if want == "cover" {
+	if want == "cover" && !s.noCap {
 		// vacuity checks only need a quick look
 		s2 := *s
 		if s2.timeout > 5 {
